@@ -474,6 +474,8 @@ partial def loop (h : IO.FS.Stream) (out : IO.FS.Stream) (st : DState) : IO Unit
   let line ← h.getLine
   if line.isEmpty then return ()
   let line := if line.endsWith "\n" then (line.dropEnd 1).toString else line
+  -- `ONW\t<request>`: the harness runs the request on a second thread; the model has no per-thread state
+  let line := if line.startsWith "ONW\t" then (line.drop 4).toString else line
   let (st', resp) := handle st line
   out.putStrLn resp
   loop h out st'
